@@ -313,6 +313,8 @@ static int upipe_qsink_flush(struct upipe *upipe)
     if (upipe_qsink_flush_input(upipe)) {
         struct upipe_qsink *upipe_qsink = upipe_qsink_from_upipe(upipe);
         upump_stop(upipe_qsink->upump);
+        /* The flow definition may have been among the flushed buffers. */
+        upipe_qsink->flow_def_sent = false;
         /* All packets have been output, release again the pipe that has been
          * used in @ref upipe_qsink_input. */
         upipe_release(upipe);
